@@ -19,6 +19,42 @@ from .facts import AnalysisError, ClassInfo, FuncInfo, Program, dotted
 from .terms import (BINOPS, CMPOPS, FALSE, NONE, TRUE, UNOPS, const, contains, fold_binop,
                     fold_cmp, is_const, negate, show, subterms, truthy)
 
+
+class EnumVal(int):
+    """an IntEnum member of the analysed program: behaves as its integer value, remembers its name"""
+
+    def __new__(cls, value, clsqual, name):
+        o = int.__new__(cls, value)
+        o.clsqual = clsqual
+        o.member = name
+        return o
+
+    def __repr__(self):
+        return f"{self.clsqual.split('.')[-1]}.{self.member}"
+
+    __str__ = __repr__
+
+
+EXT_INT_CONSTS = {"socket.IPPROTO_TCP": 6, "socket.IPPROTO_UDP": 17}
+
+
+def enum_members(prog, clsqual):
+    """{name: EnumVal} for an (Int)Enum class of the package, None for other classes"""
+    ci = prog.classes.get(clsqual)
+    if ci is None or not any(b.split(".")[-1] in ("IntEnum", "Enum", "IntFlag") for b in ci.ext_bases):
+        return None
+    out = {}
+    for name, node in ci.consts.items():
+        if isinstance(node, ast.Constant) and isinstance(node.value, int):
+            out[name] = EnumVal(node.value, clsqual, name)
+        else:
+            d = dotted(node)
+            full = prog.expand_alias(ci.module, d) if d else None
+            if full in EXT_INT_CONSTS:
+                out[name] = EnumVal(EXT_INT_CONSTS[full], clsqual, name)
+    return out
+
+
 # ----------------------------------------------------------------------------- exceptions
 
 BUILTIN_EXC_PARENT = {
@@ -286,6 +322,8 @@ class Policy:
                     return ["AnyException"]
                 return []
             if ev.ext:
+                if ev.ext.startswith("enumconv:"):
+                    return ["ValueError"]
                 return EXT_RAISES.get(ev.ext, [])
             if ev.attrname in ("pop", "remove"):
                 return {"pop": ["KeyError"], "remove": ["ValueError", "KeyError"]}[ev.attrname]
@@ -418,7 +456,29 @@ class Typer:
 
     def return_type(self, fi: FuncInfo) -> t.Optional[tuple]:
         if fi.node.returns is not None:
-            return self.ann_type(fi.node.returns, fi.module)
+            ty = self.ann_type(fi.node.returns, fi.module)
+            if ty is not None:
+                return ty
+        # no (usable) annotation: every `return` constructs the same package class
+        found = set()
+        for sub in ast.walk(fi.node):
+            if isinstance(sub, ast.Return) and sub.value is not None:
+                v = sub.value
+                if isinstance(v, ast.Constant) and v.value is None:
+                    continue
+                q = None
+                if isinstance(v, ast.Call):
+                    name = dotted(v.func)
+                    if name:
+                        q = self.prog.resolve_class_name(fi.module, name)
+                        if q is None and name == "cls" and fi.cls is not None and fi.kind == "classmethod":
+                            q = fi.cls.qual
+                        if q is None and name.split(".")[-1] == "replace" and v.args and isinstance(v.args[0], ast.Name) \
+                                and fi.params() and v.args[0].id == fi.params()[0] and fi.cls is not None:
+                            q = fi.cls.qual
+                found.add(q)
+        if len(found) == 1 and None not in found:
+            return ("cls", found.pop())
         return None
 
     def type_of(self, tm, hint: t.Optional[t.Dict] = None) -> t.Optional[tuple]:
@@ -1317,6 +1377,18 @@ class Engine:
                 return const(node.value)
             return ("attr", ("mod", g[1]), g[2])
         if g[0] == "classattr":
+            em = enum_members(self.prog, g[1])
+            if em is not None and g[2] in em:
+                return const(em[g[2]])
+            if "." not in g[2]:
+                m = self.prog.lookup_method(g[1], g[2])
+                if m is not None:
+                    if m.kind == "classmethod":
+                        return ("bound", ("cls", g[1]), m.qual)
+                    return ("func", m.qual)
+                c = self.prog.lookup_const(g[1], g[2])
+                if c is not None and isinstance(c[1], ast.Constant):
+                    return const(c[1].value)
             return ("attr", ("cls", g[1]), g[2])
         return ("unknown", ("global",))
 
@@ -1337,6 +1409,15 @@ class Engine:
                 return ("attr", base, attr)
         if tag == "ext":
             return ("ext", f"{base[1]}.{attr}")
+        if tag == "const" and isinstance(base[1], EnumVal):
+            if attr == "value":
+                return const(int(base[1]))
+            if attr == "name":
+                return const(base[1].member)
+        if tag == "cls":
+            em = enum_members(self.prog, base[1])
+            if em is not None and attr in em:
+                return const(em[attr])
         if tag == "new":
             for k, v in base[2]:
                 if k == attr:
@@ -1675,6 +1756,19 @@ class Engine:
     def _construct(self, cq, args, kwargs, site, e: Event, node, s: _State, fi, depth, ch):
         ci = self.prog.classes.get(cq)
         e.targets = []
+        em = enum_members(self.prog, cq) if ci is not None else None
+        if em is not None:
+            # Enum(value): conversion, raises ValueError for values that are no member
+            e.ext = "enumconv:" + cq
+            if len(args) == 1 and is_const(args[0]):
+                for m in em.values():
+                    if int(m) == args[0][1]:
+                        e.result = const(m)
+                        return e.result
+            self._raise_point(e, s, ch, node)
+            res = ("call", ("cls", cq), args, kwargs, site)
+            e.result = res
+            return res
         if ci is None:
             res = ("call", ("cls", cq), args, kwargs, site)
             e.result = res
